@@ -131,7 +131,7 @@ pub open spec fn rw_advanced<IO: RW>(a: IO, b: IO) -> bool {
         },
 //@ end
 
-//@ hint read_null_terminated_string before `if buf.pop() != Some(0) {`
+//@ hint read_null_terminated_string before `buf.pop()`
     proof {
         let s = old(io).inp();
         let n = buf@.len() as int;
@@ -179,7 +179,7 @@ pub open spec fn v4_reply_image(cmd: u8, v: AddrV) -> Seq<u8> {
         },
 //@ end
 
-//@ hint SocksResponse::read_v4 before `let target = (dst, dport).into();`
+//@ hint SocksResponse::read_v4 before `(dst, dport).into()`
         proof {
             let s = old(socket).inp();
             assert(be16(s.skip(1)) == be16(s.subrange(1, 3)));
@@ -203,7 +203,7 @@ pub open spec fn v4_reply_image(cmd: u8, v: AddrV) -> Seq<u8> {
         },
 //@ end
 
-//@ hint SocksResponse::read_v5 before `let target = match atype {`
+//@ hint SocksResponse::read_v5 before `match atype`
         let ghost a0 = old(socket).inp().skip(2);
         proof {
             let s = old(socket).inp();
@@ -259,7 +259,7 @@ pub open spec fn v4_reply_image(cmd: u8, v: AddrV) -> Seq<u8> {
         },
 //@ end
 
-//@ hint SocksResponse::read_from before `match version {`
+//@ hint SocksResponse::read_from before `match version`
         proof {
             let s = old(socket).inp();
             let t = s.skip(1);
@@ -297,7 +297,7 @@ pub open spec fn v4_reply_image(cmd: u8, v: AddrV) -> Seq<u8> {
         !s5_repr(ta_view(self.target)) ==> ret.is_err(),
 //@ end
 
-//@ hint SocksResponse::write_v5 before `let bytes = domain.vf_as_bytes();`
+//@ hint SocksResponse::write_v5 before `domain.vf_as_bytes()`
                 proof { axiom_string_utf8(*domain); }
 //@ end
 
@@ -368,7 +368,7 @@ proof fn lemma_v4_marker(ip: u32)
     assert((ip < 0x100 && ip != 0) <==> ((ip >> 24) as u8 == 0 && ((ip >> 16) & 0xff) as u8 == 0 && ((ip >> 8) & 0xff) as u8 == 0 && (ip & 0xff) as u8 != 0)) by (bit_vector);
 }
 
-//@ hint SocksRequest::write_v4 before `let dst = v4.octets();`
+//@ hint SocksRequest::write_v4 before `v4.octets()`
                     proof { lemma_v4_marker(v4.bits); }
 //@ end
 
@@ -392,7 +392,7 @@ proof fn lemma_v4_marker(ip: u32)
         ret.is_ok() ==> self.version == 4 || self.version == 5,
 //@ end
 
-//@ hint SocksRequest::write_v4 before `if slice_contains_u8(cid.vf_as_bytes(), 0) {`
+//@ hint SocksRequest::write_v4 before `slice_contains_u8(cid.vf_as_bytes(), 0)`
         let ghost cidb = string_bytes(cid);
 //@ end
 
@@ -413,7 +413,7 @@ pub open spec fn final_written_matches(w: Seq<u8>, w0: Seq<u8>, img: Seq<u8>) ->
         !s5_repr(ta_view(self.target)) ==> ret.is_err(),
 //@ end
 
-//@ hint SocksRequest::write_v5 before `x.insert(0, x.len() as u8);`
+//@ hint SocksRequest::write_v5 before `x.insert(0,`
                 proof { axiom_string_utf8(*domain); }
 //@ end
 
